@@ -50,17 +50,23 @@ def model_check(res, cfg_ok, nonvac):
         res.cov["parts"]["nonvacuity_" + cfg] = "violated as expected"
 
 
-def save_corpus(wd, variant="asan", extra_opts=()):
-    """compile every corpus entry, save it; returns {name: bytes}"""
+def save_corpus(wd, variant="asan", extra_opts=(), audits=None):
+    """compile every corpus entry, save it; returns {name: bytes}; audits (a list) receives the relocation audit of every
+    compiled and of every re-loaded arena"""
     exe = yv.driver(variant)
     lines = ["init"] + list(extra_opts)
     for name, src in CORPUS:
-        lines += ["compiler 0"] + EXT + ["add 0 - " + yv.hx(src.encode()), "getrules 0 0", "cdestroy 0",
-                                         "save 0 %s/%s.yarc" % (wd, name), "rdestroy 0"]
+        lines += ["note " + name, "compiler 0"] + EXT + ["add 0 - " + yv.hx(src.encode()), "getrules 0 0", "cdestroy 0", "audit 0",
+                                         "save 0 %s/%s.yarc" % (wd, name), "rdestroy 0", "load 0 %s/%s.yarc" % (wd, name), "audit 0", "rdestroy 0"]
     lines.append("finalize")
     run = yv.run_script(exe, lines, wd, name="save_corpus_" + variant)
     if not run.complete:
         raise yv.Broken("could not save the corpus: " + yv.crash_summary(run))
+    if audits is not None:
+        cur = None
+        for e in run.events:
+            if e["e"] == "Note": cur = e["text"]
+            elif e["e"] == "RelocAudit" and "skipped" not in e: audits.append((cur, variant, e))
     return {name: open("%s/%s.yarc" % (wd, name), "rb").read() for name, _ in CORPUS}
 
 
@@ -146,8 +152,8 @@ def via_save_groups(groups, wd, stream):
     for i, g in enumerate(groups):
         g2 = dict(g)
         path = "%s/vs.yarc" % wd
-        g2["post_rules"] = list(g.get("post_rules", ())) + ["rmfile %s" % path, "savestream 0 %s" % path if stream else "save 0 %s" % path, "rdestroy 0",
-                                                              ("loadstream 0 %s" if stream else "load 0 %s") % path]
+        g2["post_rules"] = list(g.get("post_rules", ())) + ["audit 0", "rmfile %s" % path, "savestream 0 %s" % path if stream else "save 0 %s" % path, "rdestroy 0",
+                                                              ("loadstream 0 %s" if stream else "load 0 %s") % path, "audit 0"]
         out.append(g2)
     return out
 
@@ -158,9 +164,10 @@ def c08(res, tier, seed):
     r = yv.rng(seed, "c08")
     # (1) the image depends only on the rules: compile + save in processes with different heap layouts / allocators
     imgs = []
+    corpus_audits = []
     for variant, opts in (("plain", []), ("plain", ["data 3 %s" % ("41" * 5000), "data 4 %s" % ("42" * 70000)]), ("asan", [])):
         d = os.path.join(wd, "img%d" % len(imgs)); os.makedirs(d, exist_ok=True)
-        imgs.append(save_corpus(d, variant, opts))
+        imgs.append(save_corpus(d, variant, opts, audits=corpus_audits))
     for name, _ in CORPUS:
         hs = [hashlib.sha256(i[name]).hexdigest() for i in imgs]
         res.count(1, ("image", name))
@@ -204,6 +211,10 @@ def c08(res, tier, seed):
             bufs = [hexre.plant_buffer(r, ast, hexre.SAFE, 60) for _ in range(5)]
             smetas.append(("re", ast, None, src))
         sgroups.append({"src": src, "bufs": bufs})
+    audit_recs, audit_owners = [], []
+    for (cname, variant, au) in corpus_audits:
+        audit_recs.append({"kind": "audit", "unregistered": au["unregistered"], "dangling": au["dangling"], "outside": au["outside"], "relocs": au["relocs"], "pointers": au["pointers"]})
+        audit_owners.append(("corpus entry " + cname, variant, au))
     for stream in (False, True):
         recs, owners = [], []
         vg = via_save_groups(sgroups, wd, stream)
@@ -218,6 +229,10 @@ def c08(res, tier, seed):
                 if g is None or not g["ok"]:
                     continue
                 kind, a, m, src = smetas[ci + gi]
+                for ai, au in enumerate(g.get("audits", [])):
+                    if "skipped" in au: continue
+                    audit_recs.append({"kind": "audit", "unregistered": au["unregistered"], "dangling": au["dangling"], "outside": au["outside"], "relocs": au["relocs"], "pointers": au["pointers"]})
+                    audit_owners.append((src, "compiled" if ai == 0 else "loaded", au))
                 for bi, b in enumerate(sgroups[ci + gi]["bufs"]):
                     if g["rets"][bi] != 0 or "t" not in g["scans"][bi]:
                         continue
@@ -230,6 +245,8 @@ def c08(res, tier, seed):
                     owners.append((src, b.hex(), sc))
                     res.count(1, (src, b, stream))
         judge_and_report(res, "C08", recs, owners, lambda o: {"rule (after save/load)": o[0], "buf": o[1][:300], "observed": o[2]}, wd, "c08_str_%d" % stream)
+    judge_and_report(res, "C08", audit_recs, audit_owners, lambda o: {"rule": o[0], "arena": o[1], "relocation audit": o[2]}, wd, "c08_audit")
+    res.cov["parts"]["relocation_audits"] = len(audit_recs)
     # scanner life cycle / callback protocol on loaded rules (global/private rules, namespaces, imports, tags survive)
     execs = []
     for si in range(10 if tier == "quick" else 120):
